@@ -1,28 +1,45 @@
 #!/usr/bin/env python3
-"""seedrun.py <seed_id> [tier] — apply a seeded change to /repo, run the checks of the properties it
-breaks, undo it straight afterwards; records which checks caught it in seeded/<id>/meta.json"""
-import json, os, subprocess, sys
+"""seedrun.py <seed_id> [tier] [props...] — run the checks against a seeded change.
+Default: on a scratch copy of /repo (VERIF_REPO) so that /repo itself is untouched while other work
+reads it; with SEED_INPLACE=1 the patch is applied to /repo (git apply) and undone straight afterwards
+(git checkout -- .).  Records which checks caught it in seeded/<id>/meta.json."""
+import json, os, shutil, subprocess, sys, tempfile
 V = os.path.dirname(os.path.dirname(os.path.abspath(__file__)))
 sid = sys.argv[1]; tier = sys.argv[2] if len(sys.argv) > 2 else "quick"
 d = os.path.join(V, "seeded", sid)
 meta = json.load(open(os.path.join(d, "meta.json")))
 pm = json.load(open(os.path.join(V, "properties_map.json")))
-assert subprocess.run(["git", "-C", "/repo", "status", "--porcelain", "--untracked-files=no"], capture_output=True, text=True).stdout.strip() == "", "/repo not clean"
-r = subprocess.run(["git", "-C", "/repo", "apply", os.path.join(d, "patch.diff")], capture_output=True, text=True)
+inplace = os.environ.get("SEED_INPLACE") == "1"
+env = dict(os.environ)
+if inplace:
+    assert subprocess.run(["git", "-C", "/repo", "status", "--porcelain", "--untracked-files=no"], capture_output=True, text=True).stdout.strip() == "", "/repo not clean"
+    target = "/repo"
+else:
+    target = tempfile.mkdtemp(prefix="seedrepo-", dir="/dev/shm")
+    subprocess.run(["rsync", "-a", "--exclude", "target", "--exclude", ".git", "/repo/", target + "/"], check=True)
+    subprocess.run(["git", "init", "-q"], cwd=target)
+    env["VERIF_REPO"] = target
+r = subprocess.run(["git", "apply", os.path.join(d, "patch.diff")], cwd=target, capture_output=True, text=True)
 if r.returncode != 0:
-    print("patch does not apply:", r.stderr); sys.exit(3)
+    print("patch does not apply:", r.stderr)
+    if not inplace: shutil.rmtree(target, ignore_errors=True)
+    sys.exit(3)
 res = {}
 try:
     props = sys.argv[3:] or [p for p in meta["breaks"] if p in pm]
     for p in props:
-        pr = subprocess.run(["python3", os.path.join(V, "check.py"), p, "--tier", tier], capture_output=True, text=True, cwd=V)
+        pr = subprocess.run(["python3", os.path.join(V, "check.py"), p, "--tier", tier], capture_output=True, text=True, cwd=V, env=env)
         viol = [l for l in pr.stdout.split("\n") if l.startswith("VIOLATION")]
         inc = [l for l in pr.stdout.split("\n") if l.startswith("INCONCLUSIVE")]
         res[p] = {"exit": pr.returncode, "violations": viol, "inconclusive": inc[:3]}
-        print(p, "exit", pr.returncode); [print("  ", v) for v in viol]; [print("  ", v[:300]) for v in inc[:3]]
+        print(sid, p, "exit", pr.returncode); [print("  ", v) for v in viol]; [print("  ", v[:300]) for v in inc[:3]]
 finally:
-    subprocess.run(["git", "-C", "/repo", "checkout", "--", "."])
+    if inplace:
+        subprocess.run(["git", "-C", "/repo", "checkout", "--", "."])
+    else:
+        shutil.rmtree(target, ignore_errors=True)
 meta.setdefault("runs", {})[tier] = res
 caught = [p for p, v in res.items() if v["exit"] == 1]
-meta["detected_by"] = {"properties": caught, "tier": tier} if caught else meta.get("detected_by")
+if caught:
+    meta["detected_by"] = {"properties": caught, "tier": tier, "violations": sum((v["violations"] for v in res.values()), [])}
 json.dump(meta, open(os.path.join(d, "meta.json"), "w"), indent=1)
